@@ -274,6 +274,10 @@ def gen_cases(rng, tier):
         mb = ["rec", ["g/b", [[tb, "count"], ["string", "u"]]], [vb, S("b")], G0]
         cases.append({"kind": "grpflat", "name": "grp/c05", "members": [ma, mb]})
         cases.append({"kind": "grpflat", "name": "grp/c05", "members": [mb, ma, mb]})
+        for asg in ([["count", I(7)]], [["count", I(65536)], ["s", B(b"raw")]], [["count", I(-1)]], [["u", B(b"x")], ["count", S("12")]],
+                    [["count", ["dt", [2020, 1, 2, 3, 4, 5, 6], "naive", 0]]]):
+            cases.append({"kind": "grpflat", "name": "grp/c05", "members": [ma, mb], "assign": asg})
+            cases.append({"kind": "grpflat", "name": "grp/c05", "members": [mb, ma], "assign": asg})
     for types in (["net.tcp.Port[]", "net.udp.Port[]"], ["net.udp.Port[]", "net.tcp.Port[]"], ["string[]", "wstring[]", "uri[]"],
                   ["uint16[]", "net.tcp.Port[]", "uint32[]"]):
         cases.append({"kind": "listcls", "types": types, "values": [I(80), I(443)] if "string[]" not in types else [S("a")]})
@@ -428,6 +432,13 @@ def run_real(case):
         from harness import values as _V
         g = GroupedRecord(case["name"], [_V.build_record(m) for m in case["members"]])
         out = []
+        # assignments made THROUGH the group reach the member that provides the field - and are converted or refused
+        # there like any other assignment
+        for fname, vspec in case.get("assign", []):
+            try:
+                setattr(g, fname, _V.build(vspec))
+            except Exception:          # noqa: BLE001
+                pass
         for t, n in g._desc.get_field_tuples():
             v = getattr(g, n)
             out.append([n, t, type(v).__name__, v is None or isinstance(v, fieldtype(t))])
